@@ -36,6 +36,34 @@ def j_replay(fn_name):
     return Replay(call=call, lower_z3=lower_z3, judge=judge)
 
 
+def init_replay():
+    """replay for the __init__ region contract: self is abstract in the proof (its property table is an uninterpreted set), so the concretised keyword
+    dictionary is tried on a few real classes; if none reproduces the escape the violation is reported without an input (not as a checker fault)"""
+    def candidates(is20):
+        import stix2
+        return [stix2.v20.Identity, stix2.v20.File] if is20 else [stix2.v21.Identity, stix2.v21.File, stix2.v21.Bundle, stix2.v21.NTFSExt]
+
+    def lower_z3(model, ob):
+        from vf.pyvc.engine import J
+        keys = string_constants(ob.pc + [ob.claim]) | {'custom_properties', 'extensions', 'extension_type'} | model_strings(model, ob.pc)
+        kw = concretize(model, z3.Const('kwargs', J), keys)
+        if not isinstance(kw, dict): kw = {}
+        ac = bool(model.eval(z3.Bool('allow_custom'), model_completion=True)); is20 = bool(model.eval(z3.Bool('isinstance(self, _STIXBase20)'), model_completion=True))
+        for cls in candidates(is20):
+            for allow in (ac, not ac):
+                try: cls(allow_custom=allow, **copy.deepcopy(kw))
+                except Exception as ex:        # noqa
+                    if not family_ok(ex): return {'cls': cls, 'allow_custom': allow, 'kwargs': kw}
+        raise RuntimeError('the model depends on the abstract property table; no concrete class reproduces it')
+
+    def call(py): return py['cls'](allow_custom=py['allow_custom'], **copy.deepcopy(py['kwargs']))
+
+    def judge(py, outcome, ob):
+        if outcome[0] == 'raise' and not family_ok(outcome[1]): return [f'escaped {type(outcome[1]).__name__}: {outcome[1]}']
+        return []
+    return Replay(call=call, lower_z3=lower_z3, judge=judge)
+
+
 def slots(d, path=()):
     """every (path, value) slot of a JSON value, depth-limited"""
     if isinstance(d, dict):
@@ -75,7 +103,9 @@ def run(chk):
     chk.registry = REG
     chk.explanation = ('P: utils.detect_spec_version, parsing.dict_to_stix2 and parsing.parse are verified with the input of sort J (an arbitrary JSON '
                        'value, any nesting): every subscript, attribute/method access, membership test and iteration on raw input is an obligation site, '
-                       'and no path lets KeyError/AttributeError/IndexError escape (raises subset of STIXError | ValueError | TypeError); callee '
+                       'and no path lets KeyError/AttributeError/IndexError escape (raises subset of STIXError | ValueError | TypeError); the same for the part '
+                       'of _STIXBase.__init__ that inspects the raw keyword dictionary before property cleaning (custom_properties, the extensions scan, '
+                       'custom property naming; region contract cut at the property loop, self abstracted to an arbitrary property-name set); callee '
                        'preconditions (recursive detect call, registry lookup, constructor) are call-site obligations.  B (fault enumeration): every '
                        'parseable type of both versions x every JSON slot down to depth 3 x wrong-kind values, through stix2.parse in both custom modes, '
                        'parse_observable and constructors; whole-input scalars and text; registries compared with their snapshot.')
@@ -84,7 +114,8 @@ def run(chk):
     c1 = K._fix_detect(K.detect_contract()); c1.replay = j_replay('detect_spec_version')
     c2 = K.dict_to_stix2_contract(); c2.replay = j_replay('dict_to_stix2')
     c3 = K.parse_contract()
-    for c in (c1, c2, c3):
+    c4 = K.init_prefix_contract(); c4.replay = init_replay()
+    for c in (c1, c2, c3, c4):
         chk.prove(c); chk.canary(c)
     # ---- structured inputs around the raw-input code of dict_to_stix2 / detect_spec_version (every branch of the proved functions, natively): unknown and known
     # types x extensions of every shape x extension_type of every JSON kind; bundles whose members have every shape
